@@ -72,7 +72,11 @@ parse_comp(const char *str, int *n_objs, comp_info_t *comp)
 
     /* get object list */
     for (j = 0, k = 0, n = 0; j < end_obj; j++, k++) {
-        c      = str[j];
+        c = str[j];
+        if (k >= H4_MAX_NC_NAME - 1) {
+            printf("Input Error: Object name too long in <%s>\n", str);
+            goto out;
+        }
         obj[k] = c;
         if (c == ',' || j == end_obj - 1) {
             if (c == ',')
@@ -98,7 +102,11 @@ parse_comp(const char *str, int *n_objs, comp_info_t *comp)
 
     m = 0;
     for (i = (unsigned)(end_obj + 1), k = 0; i < len; i++, k++) {
-        c        = str[i];
+        c = str[i];
+        if (k >= (int)sizeof(scomp) - 1) {
+            printf("Input Error: Invalid compression type in <%s>\n", str);
+            goto out;
+        }
         scomp[k] = c;
         if (c == ' ' || i == len - 1) {
             if (c == ' ') /*one more parameter */
@@ -120,7 +128,7 @@ parse_comp(const char *str, int *n_objs, comp_info_t *comp)
                             u++;             /* skip ',' */
                         }
                         c = str[u];
-                        if (!isdigit(c) && l == -1) {
+                        if ((!isdigit(c) && l == -1) || m >= (int)sizeof(stype) - 1) {
                             printf("Input Error: Compression parameter not digit in <%s>\n", str);
                             goto out;
                         }
@@ -152,7 +160,7 @@ parse_comp(const char *str, int *n_objs, comp_info_t *comp)
                     /* here we could have 1, 2 or 3 digits (2 and 3 in the JPEG case) */
                     for (m = 0, u = i + 1; u < len; u++, m++) {
                         c = str[u];
-                        if (!isdigit(c)) {
+                        if (!isdigit(c) || m >= (int)sizeof(stype) - 1) {
                             printf("Input Error: Compression parameter not digit in <%s>\n", str);
                             goto out;
                         }
@@ -331,7 +339,11 @@ parse_chunk(const char *str, int *n_objs, int32 *chunk_lengths, int *chunk_rank)
 
     /* get object list */
     for (j = 0, k = 0, n = 0; j < end_obj; j++, k++) {
-        c      = str[j];
+        c = str[j];
+        if (k >= H4_MAX_NC_NAME - 1) {
+            printf("Input Error: Object name too long in <%s>\n", str);
+            goto out;
+        }
         obj[k] = c;
         if (c == ',' || j == end_obj - 1) {
             if (c == ',')
@@ -354,7 +366,12 @@ parse_chunk(const char *str, int *n_objs, int32 *chunk_lengths, int *chunk_rank)
     /* get chunk info */
     k = 0;
     for (i = (unsigned)(end_obj + 1), c_index = 0; i < len; i++) {
-        c       = str[i];
+        c = str[i];
+        /* the dimension does not fit in sdim, or nothing follows the last 'x' (chunk_rank would stay unset) */
+        if (k >= (int)sizeof(sdim) - 1 || (c == 'x' && i == len - 1)) {
+            printf("Input Error: Invalid chunking in <%s>\n", str);
+            goto out;
+        }
         sdim[k] = c;
         k++; /* increment sdim index */
 
